@@ -321,16 +321,6 @@ def payload_len(p):
     return sum(n for _, n in p)
 
 
-def rle(data):
-    out = []
-    for b in data:
-        if out and out[-1][0] == b:
-            out[-1][1] += 1
-        else:
-            out.append([b, 1])
-    return out
-
-
 _RUN = re.compile(rb'(.)\1*', re.S)
 
 
@@ -442,7 +432,7 @@ class C11(Prop):
     id = 'C11'
     props_file = 'Props/C11.v'
     imports = ['Model.StreamWrite', 'Model.StreamWriteObs']
-    quick_n = 1500
+    quick_n = 1000
     thorough_n = 20000
     rule = ('real TCPServer/UNIXServer (1 or 2 accepted connections, interleaved), TCPClient/UNIXClient and File '
             'components driven in-process with a scripted send()/fd_write double and the real BasePoller bookkeeping; '
@@ -591,22 +581,24 @@ class C11(Prop):
 
     # ---- implementation
     def impl(self, c):
-        return run_case(c)
+        obs = run_case(c)
+        # the model term has to know whether the internal tables (_buffer/_buffers, _closeflag/_closeq) could be
+        # read: after a rename the observable degrades instead of raising an alarm
+        if any(r['int'] is None for r in obs['recs']):
+            c['_noint'] = True
+        return obs
 
     # ---- model
     def _conns(self, c):
         server = c['kind'].endswith('server')
         return (c.get('nconn', 1) if server else 1), server
 
-    def _withint(self, c):
-        return not c.get('_noint')
-
     def model_term(self, c):
         nconn, server = self._conns(c)
         parts = []
         for conn in range(nconn):
             ops = [o for o in c['ops'] if conn in op_conns(o, nconn, server)]
-            parts.append('obs_run %s %s [%s]' % (MODEL_KIND[c['kind']], 'WITHINT',
+            parts.append('obs_run %s %s [%s]' % (MODEL_KIND[c['kind']], 'false' if c.get('_noint') else 'true',
                                                  '; '.join(coq_op(o) for o in ops)))
         return 'Tl [%s]' % '; '.join(parts)
 
@@ -718,25 +710,6 @@ class C11(Prop):
 
     def search(self, rng, tier):
         return self.generate(rng, 4000, 'thorough')
-
-
-def _patch_model_term():
-    """the model term needs to know whether the internal tables could be read in the implementation run; the
-    framework calls model_term(case) without the observation, so impl() leaves a note in the case"""
-    orig_impl, orig_term = C11.impl, C11.model_term
-
-    def impl(self, c):
-        obs = orig_impl(self, c)
-        if any(r['int'] is None for r in obs['recs']):
-            c['_noint'] = True
-        return obs
-
-    def model_term(self, c):
-        return orig_term(self, c).replace('WITHINT', 'false' if c.get('_noint') else 'true')
-    C11.impl, C11.model_term = impl, model_term
-
-
-_patch_model_term()
 
 
 if __name__ == '__main__':
